@@ -180,6 +180,19 @@ macro_rules! define_hasher {
             }
         }
 
+        /// Verification hooks: observe the chaining value and counter, overwrite the counter.
+        #[cfg(cryptocorrosion_verif)]
+        impl $name {
+            pub fn verif_get_state(&self) -> ([$word; 8], ($word, $word)) {
+                let a: [$word; 4] = self.compressor.h[0].into();
+                let b: [$word; 4] = self.compressor.h[1].into();
+                ([a[0], a[1], a[2], a[3], b[0], b[1], b[2], b[3]], self.t)
+            }
+            pub fn verif_set_counter(&mut self, t: ($word, $word)) {
+                self.t = t;
+            }
+        }
+
         impl Default for $name {
             fn default() -> Self {
                 Self {
